@@ -16,7 +16,7 @@ TECHNIQUE = 'symbolic execution of the real Python / C (LLVM IR) kernels with a 
 BUDGET = {'quick': 420, 'thorough': 1800}
 SOURCES = ['src/dtaidistance/dtw.py', 'src/dtaidistance/ed.py', 'src/dtaidistance/innerdistance.py',
            'src/DTAIDistanceC/DTAIDistanceC/dd_dtw.c', 'src/DTAIDistanceC/DTAIDistanceC/dd_ed.c']
-FUNCTIONS = ['dtw.distance (max_dist, use_pruning)', 'dtw.warping_paths (max_dist: returned distance)',
+FUNCTIONS = ['dtw.distance (max_dist, use_pruning)', 'dtw.warping_paths (max_dist, use_pruning: returned distance)', 'dd_dtw.c dtw_warping_paths(_ndim)(_euclidean) with use_pruning (returned distance)',
              'DTWSettings.set_max_dist', 'ed.distance', 'dd_dtw.c dtw_distance, dtw_distance_euclidean (max_dist, use_pruning)',
              'dd_dtw.c ub_euclidean*', 'dd_ed.c euclidean_distance*']
 BOUNDS = {'quick': {'r,c': '1..3 (3x4 / 4x3 for distance in cost mode)', 'window': 'None,1,2,3', 'psi': 'None, 1, (1,0,0,1), (0,1,0,1)',
@@ -67,6 +67,9 @@ def tasks(tier, seed):
                         for inner in ('sq', 'abs'):
                             ts.append({'harness': '%s/prune/%s' % (eng, inner), 'r': r, 'c': c, 'window': w, 'tier': tier,
                                        'est': 4 * 3 ** min(r, c) * r * c})
+                            # the accumulated-cost matrix routines with use_pruning (returned distance)
+                            ts.append({'harness': '%s/wps-prune/%s' % (eng, inner), 'r': r, 'c': c, 'window': w, 'tier': tier,
+                                       'est': 4 * 3 ** min(r, c) * r * c})
     for eng in ('py', 'c'):
         for r in (2, 3):
             ts.append({'harness': eng + '/prune-rounding', 'r': r, 'c': r, 'window': None, 'tier': tier, 'est': 500})
@@ -92,24 +95,26 @@ def run_task(cfg):
     innername = {'sq': 'squared euclidean', 'abs': 'euclidean'}.get(kind)
     for psi in _psis(r, c, tier):
         for pen in (False, True):
-            if what == 'prune' and pen and r != c:
+            if what in ('prune', 'wps-prune') and pen and r != c:
                 continue     # Euclidean distance is not an upper bound: outside the property
             mode = dtwh.CostMode(r, c) if kind == 'cost' else dtwh.SeriesMode(r, c, innername)
             assume = list(mode.assume) + [P >= 0, Mx > 0]
             kw = {'window': w, 'psi': psi}
             if pen:
                 kw['penalty'] = SReal(P)
-            if what == 'prune':
+            if what in ('prune', 'wps-prune'):
                 kw['use_pruning'] = True
             else:
                 kw['max_dist'] = SReal(Mx)
+            if what == 'wps-prune' and psi is not None and (spec.norm_psi(psi)[1] or spec.norm_psi(psi)[3]):
+                continue     # end-of-series relaxation in the matrix kernels: region of the known findings F04-c-psi-window / C04
             o = {'window': w, 'psi': psi, 'pen': pen, 'what': what}
             syms = {'penalty': P if pen else None, 'max_dist': Mx if what != 'prune' else None}
             meta = {'harness': h, 'engine': eng, 'what': what, 'kind': kind, 'r': r, 'c': c, 'opts': jnum(o)}
             unb = spec.spec_dtw(mode.D, r, c, w, mode.tr(P) if pen else 0, psi)
             thr = mode.tr(Mx)
             if eng == 'py':
-                if what == 'wps-max_dist':
+                if what in ('wps-max_dist', 'wps-prune'):
                     def run():
                         res = dtw.warping_paths(mode.s1, mode.s2, **dict(mode.kw(), **kw))
                         return res if pysym.is_inf(res) else res[0]
@@ -117,6 +122,12 @@ def run_task(cfg):
                     def run():
                         return dtw.distance(mode.s1, mode.s2, **dict(mode.kw(), **kw))
                 gen = dtwh.py_paths(run, mode, assume, stats, max_paths=8000)
+            elif what == 'wps-prune':
+                from engine import ckern
+
+                def crun():
+                    return ckern.warping_paths(irmod, mode, dtwh.c_settings(dtw, **dict(kw, inner_dist=innername))).d
+                gen = dtwh.py_paths(crun, mode, assume, stats, max_paths=8000)
             else:
                 gen = dtwh.c_paths(irmod, dtw, mode, dict(kw, inner_dist=innername), assume, stats, max_paths=8000)
             for facts, er, p in gen:
@@ -127,6 +138,8 @@ def run_task(cfg):
                             continue        # memory safety is C08's claim
                         raise p.exc
                     neg, cl = z3.BoolVal(True), 'raises %s on a valid input' % type(p.exc).__name__
+                elif what == 'wps-prune':
+                    neg, cl = smt.er_neq(er, unb), 'warping_paths(use_pruning) returns the distance obtained without pruning'
                 elif what == 'prune':
                     neg, cl = smt.er_neq(er, unb), 'use_pruning returns the distance obtained without pruning'
                 elif er.inf is True:
@@ -272,14 +285,14 @@ def replay(cex):
     unb_int = spec.conc_dtw(D, r, c, w, dtwh.conc_tr(kind, innername, pen) or 0, psi)
     unb = dtwh.conc_result(kind, innername, unb_int)
     full = dict(base)
-    if what == 'prune':
+    if what in ('prune', 'wps-prune'):
         full['use_pruning'] = True
     else:
         m = float(inp['max_dist'])
         full['max_dist'] = m
     try:
         if eng == 'py':
-            if what == 'wps-max_dist':
+            if what in ('wps-max_dist', 'wps-prune'):
                 res = dtw.warping_paths(s1, s2, **full)
                 got = res if isinstance(res, float) else res[0]
             else:
@@ -287,11 +300,19 @@ def replay(cex):
         else:
             from engine import native
             cs = dtwh.c_settings(dtw, **full)
-            got = native.distance(s1, s2, cs)
+            if what == 'wps-prune':
+                import ctypes
+                L = native.lib()
+                st = native.settings(cs)
+                length = L.dtw_settings_wps_length(r, c, ctypes.byref(st))
+                buf, fa, fb = native.Fenced(n=length, fill=float('inf')), native.Fenced(s1), native.Fenced(s2)
+                got = L.dtw_warping_paths(buf.ptr, fa.ptr, r, fb.ptr, c, True, False, True, ctypes.byref(st))
+            else:
+                got = native.distance(s1, s2, cs)
     except Exception as e:
         return {'reproduced': True, 'observed': 'raised %r' % (e,), 'expected': unb}
     got = float(got)
-    if what == 'prune':
+    if what in ('prune', 'wps-prune'):
         return {'reproduced': not spec.close(got, unb), 'observed': got, 'expected': unb}
     # threshold semantics, outside a rounding-width neighbourhood of the true distance
     if abs(unb - m) <= 1e-9 * max(1.0, abs(m)):
